@@ -339,6 +339,23 @@ func WithTxHashOnly(ctx sdk.Context, txHash []byte) sdk.Context {
 	return ctx.WithContext(context.WithValue(ctx.Context(), types.TxHash, txHash))
 }
 
+// ProtoJSONRoundTrip writes a genesis state holding the context with the application's JSON codec and reads it
+// back: true if that works and the context's states survive. (The engine cannot execute the reflective codec; it
+// returns the harness's model of it, and the harness compares the two.)
+func ProtoJSONRoundTrip(rc types.RequestContext, model bool) bool {
+	gs := types.GenesisState{Params: types.DefaultParams(), RequestContexts: map[string]*types.RequestContext{"AA": &rc}}
+	bz, err := App.AppCodec().MarshalJSON(&gs)
+	if err != nil {
+		return false
+	}
+	var back types.GenesisState
+	if err := App.AppCodec().UnmarshalJSON(bz, &back); err != nil {
+		return false
+	}
+	got, ok := back.RequestContexts["AA"]
+	return ok && got.State == rc.State && got.BatchState == rc.BatchState
+}
+
 // Store is the raw module store.
 func Store(ctx sdk.Context) sdk.KVStore { return ctx.KVStore(App.GetKey(types.StoreKey)) }
 
